@@ -63,7 +63,25 @@ func migrateLegacyTemplateAsString(template string, options *MigrateOptions) (st
 	scanner.SetUnescapeBody(false)
 	errors := excellent.NewTemplateErrors()
 
+	// scan the whole template first because what an expression becomes depends on the text which follows it
+	type scanned struct {
+		tokenType excellent.XTokenType
+		token     string
+	}
+	tokens := make([]scanned, 0)
 	for tokenType, token := scanner.Scan(); tokenType != excellent.EOF; tokenType, token = scanner.Scan() {
+		tokens = append(tokens, scanned{tokenType, token})
+	}
+
+	for i, t := range tokens {
+		tokenType, token := t.tokenType, t.token
+
+		// text directly after this token
+		following := ""
+		if i+1 < len(tokens) && tokens[i+1].tokenType == excellent.BODY {
+			following = tokens[i+1].token
+		}
+
 		switch tokenType {
 		case excellent.BODY:
 			buf.WriteString(token)
@@ -76,7 +94,7 @@ func migrateLegacyTemplateAsString(template string, options *MigrateOptions) (st
 			}
 
 			// optionally wrap expression so that it is URL encoded or defaults to itself on error
-			buf.WriteString(wrapRawExpression(value, errorAs, options.URLEncode))
+			buf.WriteString(separateFrom(wrapRawExpression(value, errorAs, options.URLEncode), following))
 
 		case excellent.EXPRESSION:
 			// special case of @("") which was a common workaround for the editor requiring a
@@ -98,7 +116,7 @@ func migrateLegacyTemplateAsString(template string, options *MigrateOptions) (st
 				}
 
 				// optionally wrap expression so that it is URL encoded or defaults to itself on error
-				buf.WriteString(wrapRawExpression(value, errorAs, options.URLEncode))
+				buf.WriteString(separateFrom(wrapRawExpression(value, errorAs, options.URLEncode), following))
 			}
 		}
 	}
@@ -191,6 +209,22 @@ func wrapRawExpression(expression string, errorAs string, urlEncode bool) string
 	}
 
 	return "@" + expression
+}
+
+// keeps the parentheses around a migrated expression which is a bare identifier like @contact.name unless it is
+// read back as exactly that identifier when followed by the text that follows it in the template. It wouldn't be
+// in e.g. @(contact.name)s
+func separateFrom(wrapped string, following string) string {
+	if strings.HasPrefix(wrapped, "@(") {
+		return wrapped
+	}
+
+	scanner := excellent.NewXScanner(strings.NewReader(wrapped+following), flows.RunContextTopLevels)
+	tokenType, token := scanner.Scan()
+	if tokenType == excellent.IDENTIFIER && token == wrapped[1:] {
+		return wrapped
+	}
+	return "@(" + wrapped[1:] + ")"
 }
 
 func wrap(expression, funcName string) string {
